@@ -240,13 +240,26 @@ def correspondence(ctx, violations, known_hits):
             violations.append({"kind": "loader-huge-file", "apparent_size_bytes": size, "first_bytes": "3000f025 then zeros (sparse)", "cli_exit": rc,
                                "expected_exit": want, "expected_from": "C06_loader_iff / C06_loader_rejects (odd length: 1; even and too long: 238)",
                                "cli_stderr": se.decode(errors="replace")[-300:]})
+    # file NAMES whose extension is not valid UTF-8: not an object file's name, so an error exit - not a crash
+    for nm in ("prog.\udcff", "prog.lc3\udcff", "prog.ob\udcffj", "p\udcfe.\udcff\udcfe"):
+        sub = os.path.join(d, "ext%d" % ev); os.makedirs(sub, exist_ok=True)
+        with open(os.path.join(sub, nm), "wb") as f:
+            f.write(bytes.fromhex("3000f025"))
+        for form in (["run"], [], ["debug"]):
+            rc, so, se = clicommon.run_cli(exe, form + [nm, "--minimal"], sub, stdin=b"", timeout=10)
+            ev += 1
+            sigs.add(("ext", rc))
+            if rc != 1:
+                nv += 1
+                violations.append({"kind": "loader-file-name", "file_name_bytes": os.fsencode(nm).hex(), "command": form, "cli_exit": rc, "expected_exit": 1,
+                                   "cli_stderr": se.decode(errors="replace")[-300:]})
     ctx.cleanup()
     return {
         "evaluations": ev, "distinct_nontrivial": len(sigs), "huge_sparse_files": [list(x) for x in huge],
         "rule": "CLI: `lace compile` bytes and exit status vs the model's object bytes for random programs (both feature settings; the destination absent, or already holding a longer or a shorter object file), "
                 "all origins); `lace run file.lc3` vs `lace run file.asm` vs the model (exit status and program output, with stdin); "
                 "the same through the other invocation forms (`lace FILE`, the object under .obj, `compile` without a destination); loader fed byte strings of every length 0-9, odd lengths, images ending at/below/above the top of memory and random "
-                "images, as .lc3 and .obj; sparse files of 128 KiB+2 .. 8 TiB apparent size, even and odd (expected exit from C06_loader_iff); distinct = distinct (kind, outcome, size class)",
+                "images, as .lc3 and .obj; sparse files of 128 KiB+2 .. 8 TiB apparent size, even and odd (expected exit from C06_loader_iff); file names whose extension is not valid UTF-8 (error exit, no crash); distinct = distinct (kind, outcome, size class)",
         "histogram": hist, "loader_histogram": {str(k): v for k, v in lhist.items()}, "samples": samples, "mismatches": nv,
     }
 
